@@ -15,8 +15,10 @@ NAN = float("nan")
 
 
 def _has_sym(x):
-    if isinstance(x, (SymReal, SymBool, SymArr)):
+    if isinstance(x, (SymReal, SymBool)):
         return True
+    if isinstance(x, SymArr):
+        return any(_has_sym(e) for e in x.data)
     if isinstance(x, (list, tuple)):
         return any(_has_sym(e) for e in x)
     return False
@@ -61,6 +63,8 @@ class SymArr:
         return list(self.data)
 
     def __getitem__(self, k):
+        if isinstance(k, (list, tuple, _np.ndarray)):
+            return SymArr([self.data[int(j)] for j in k])
         r = self.data[k]
         return SymArr(r) if isinstance(r, list) else r
 
@@ -74,9 +78,54 @@ class SymArr:
         return iter(self.data)
 
     def _ew(self, o, f):
+        if isinstance(o, _np.ndarray):
+            o = o.tolist()
         if isinstance(o, (SymArr, list, tuple)):
             return SymArr([f(a, b) for a, b in zip(self.data, list(o))])
         return SymArr([f(a, o) for a in self.data])
+
+    def __add__(self, o):
+        return self._ew(o, lambda a, b: a + b)
+
+    __radd__ = __add__
+
+    def __sub__(self, o):
+        return self._ew(o, lambda a, b: a - b)
+
+    def __rsub__(self, o):
+        return self._ew(o, lambda a, b: b - a)
+
+    def __truediv__(self, o):
+        return self._ew(o, lambda a, b: a / b)
+
+    def __neg__(self):
+        return SymArr([-a for a in self.data])
+
+    def __abs__(self):
+        return SymArr([abs(a) for a in self.data])
+
+    def __eq__(self, o):
+        return self._ew(o, lambda a, b: a == b)
+
+    def __ne__(self, o):
+        return self._ew(o, lambda a, b: a != b)
+
+    __hash__ = None
+
+    def copy(self):
+        return SymArr(list(self.data))
+
+    def max(self):
+        return _sym_max(self.data) if _has_sym(self.data) else max(self.data)
+
+    def min(self):
+        return _sym_min(self.data) if _has_sym(self.data) else min(self.data)
+
+    def sum(self):
+        s = 0.0
+        for e in self.data:
+            s = s + e
+        return s
 
     def __gt__(self, o):
         return self._ew(o, lambda a, b: a > b)
@@ -151,9 +200,31 @@ class NumpyShim:
     def abs(self, x):
         if isinstance(x, SymReal):
             return abs(x)
+        if isinstance(x, SymArr):
+            return abs(x)
         if _has_sym(x):
-            return [self.abs(e) for e in (x.data if isinstance(x, SymArr) else x)]
+            return [self.abs(e) for e in x]
         return _np.abs(x)
+
+    absolute = abs
+
+    def isclose(self, a, b, rtol=1e-5, atol=1e-8, **kw):
+        if not (_has_sym(a) or _has_sym(b)):
+            return _np.isclose(a, b, rtol=rtol, atol=atol, **kw)
+        if isinstance(a, (SymArr, list)) or isinstance(b, (SymArr, list)):
+            bb = b if isinstance(b, (SymArr, list)) else [b] * len(a)
+            return SymArr([self.isclose(x, y, rtol, atol) for x, y in zip(list(a), list(bb))])
+        x, y = _t(a), _t(b)
+        return SymBool(zabs(x - y) <= _t(atol) + mk_mul(_t(rtol), zabs(y)))
+
+    def any(self, x, *a, **kw):
+        if _has_sym(x):
+            ts = [b.t if isinstance(b, SymBool) else z3.BoolVal(bool(b)) for b in _flat(x)]
+            return SymBool(z3.Or(*ts)) if ts else False
+        return _np.any(x, *a, **kw)
+
+    def copy(self, x):
+        return x.copy() if isinstance(x, SymArr) else _np.copy(x)
 
     def isnan(self, x):
         if isinstance(x, SymReal):
@@ -164,27 +235,37 @@ class NumpyShim:
     def zeros(self, n, *a, **kw):
         if a or kw or not isinstance(n, int):
             return _np.zeros(n, *a, **kw)
-        return [0.0] * n  # indexable / assignable exactly as the 1-D float vector it replaces
+        return SymArr([0.0] * n)  # indexable / assignable / element-wise arithmetic like the 1-D float vector it replaces
 
     def array(self, x, *a, **kw):
         if _has_sym(x):
             return SymArr(x)
+        if isinstance(x, SymArr):
+            x = x.data
         return _np.array(x, *a, **kw)
 
     def asarray(self, x, *a, **kw):
         if _has_sym(x):
             return SymArr(x)
+        if isinstance(x, SymArr):
+            x = x.data
         return _np.asarray(x, *a, **kw)
 
     def min(self, x, *a, **kw):
         if _has_sym(x):
             return _sym_min(x)
+        if isinstance(x, SymArr):
+            x = x.data
         return _np.min(x, *a, **kw)
 
     def max(self, x, *a, **kw):
         if _has_sym(x):
             return _sym_max(x)
+        if isinstance(x, SymArr):
+            x = x.data
         return _np.max(x, *a, **kw)
+
+    amax, amin = max, min
 
     def diff(self, x, *a, **kw):
         if _has_sym(x):
@@ -212,6 +293,8 @@ class NumpyShim:
 
     def allclose(self, a, b, rtol=1e-5, atol=1e-8, **kw):
         if not (_has_sym(a) or _has_sym(b) or isinstance(rtol, SymReal)):
+            a = a.data if isinstance(a, SymArr) else a
+            b = b.data if isinstance(b, SymArr) else b
             return _np.allclose(a, b, rtol=rtol, atol=atol, **kw)
         a, b = _flat(a), _flat(b)
         mode = ALLCLOSE_MODE[0]
@@ -257,6 +340,8 @@ class GridInterp:
     def __init__(self, points, values):
         pts = list(points)
         vals = _flat(values)
+        if len(pts) != len(vals):
+            raise ValueError("different number of values and points")  # as scipy does
         if not (_has_sym(pts) or _has_sym(vals)):
             from scipy.interpolate import LinearNDInterpolator as L
 
